@@ -9,7 +9,7 @@
 
 enum { IN_TEXT, IN_RANDOM, IN_EMPTY };
 // script steps: action + cumulative input offset in units of 1/4 of the input (q=4 -> all input)
-enum { A_RUN = 'R', A_FLUSH = 'F', A_BARRIER = 'B', A_FINISH = 'X', A_UPDATE_OK = 'U', A_UPDATE_BAD = 'u', A_REINIT_SAME = 'S', A_REINIT_DIFF = 'D' };
+enum { A_RUN = 'R', A_FLUSH = 'F', A_BARRIER = 'B', A_FINISH = 'X', A_UPDATE_OK = 'U', A_UPDATE_BAD = 'u', A_REINIT_SAME = 'S', A_REINIT_DIFF = 'D', A_REINIT_BIGGER_BLOCKS = 'G' };
 typedef struct { const char *script; int input, plen, bsz, threads, timeout, outchunk, inchunk, early; int bp, bt, bs; int tier; } row;
 // script syntax: pairs <action><quarter>, e.g. "R2X4" = RUN up to half the input, then FINISH with the rest.
 static const row ROWS[] = {
@@ -49,6 +49,9 @@ static const row ROWS[] = {
 	{ "R2D0X4",      IN_TEXT,    10,  4,  2,  0, 0,  0, 0,    1, 0, 0, 0 },	// re-init with a different thread count
 	{ "R3D0X4",      IN_TEXT,    16,  4,  3,  0, 0,  0, 0,    1, 0, 0, 1 },
 	{ "F2S0X4",      IN_TEXT,    8,   4,  2,  0, 0,  0, 0,    1, 0, 0, 0 },
+	{ "R2G0X4",      IN_TEXT,    8,   2,  2,  0, 0,  0, 0,    1, 0, 0, 0 },	// re-init, same thread count, three times the block size (input buffers must be re-made)
+	{ "X4G0X4",      IN_RANDOM,  8,   2,  2,  0, 0,  0, 0,    0, 0, 0, 0 },
+	{ "X4G0X4",      IN_RANDOM,  12,  2,  2,  0, 0,  0, 0,    1, 0, 0, 1 },
 	{ "X4",          IN_TEXT,    8,   4,  2,  0, 0,  0, -1,   1, 0, 0, 0 },	// early lzma_end after call k for every k
 	{ "X4",          IN_TEXT,    8,   4,  2,  0, 1,  0, -1,   1, 0, 0, 0 },
 	{ "R2F2X4",      IN_TEXT,    8,   4,  2,  1, 3,  3, -1,   1, 1, 0, 0 },
@@ -66,7 +69,7 @@ static lzma_options_lzma opt, opt2; static lzma_options_delta odelta = { .type =
 
 typedef struct { int r; size_t tout; uint64_t h; int bad; char why[96]; long leaked; int calls; } obs;
 static obs last, base;
-static size_t ocap; static int calls; static uint64_t maxpo; static int threads_now;
+static size_t ocap; static int calls; static uint64_t maxpo; static int threads_now; static size_t bsz_now;
 #define BAD(o, ...) do { if (!(o)->bad) { (o)->bad = 1; snprintf((o)->why, sizeof (o)->why, __VA_ARGS__); } } while (0)
 
 static int prefix_decodes(size_t clen, size_t n, obs *o) {	// without LZMA_FINISH: everything given so far must come out
@@ -94,25 +97,26 @@ static lzma_ret step(lzma_stream *s, size_t upto, lzma_action a, obs *o, int pro
 	}
 }
 static int enc_init(lzma_stream *s, int threads) {
-	lzma_mt mt = { .threads = threads, .block_size = R->bsz, .filters = flt, .check = LZMA_CHECK_CRC32, .timeout = R->timeout };
+	if (!bsz_now) bsz_now = (size_t)R->bsz;
+	lzma_mt mt = { .threads = threads, .block_size = bsz_now, .filters = flt, .check = LZMA_CHECK_CRC32, .timeout = R->timeout };
 	s->allocator = &ALLOC; threads_now = threads;
 	return lzma_stream_encoder_mt(s, &mt) == LZMA_OK;
 }
 // expected Block sizes from the script: flush/barrier offsets cut the input, each piece is split into bsz chunks
 static int expected_blocks(size_t *sz, uint64_t *chain_change_at) {
-	int n = 0; size_t start = 0; const char *p = R->script; *chain_change_at = (uint64_t)-1; size_t prev = 0; int after_reinit = 0;
+	int n = 0; size_t start = 0; const char *p = R->script; *chain_change_at = (uint64_t)-1; size_t prev = 0; int after_reinit = 0; size_t bs = (size_t)R->bsz;
 	for (; *p; p += 2) { size_t upto = plen * (p[1] - '0') / 4; char a = p[0];
-		if (a == A_REINIT_SAME || a == A_REINIT_DIFF) { n = 0; start = 0; after_reinit = 1; *chain_change_at = (uint64_t)-1; continue; }
+		if (a == A_REINIT_SAME || a == A_REINIT_DIFF || a == A_REINIT_BIGGER_BLOCKS) { n = 0; start = 0; after_reinit = 1; *chain_change_at = (uint64_t)-1; if (a == A_REINIT_BIGGER_BLOCKS) bs = (size_t)R->bsz * 3; continue; }
 		if (a == A_UPDATE_OK) { *chain_change_at = n; continue; }
 		if (a == A_UPDATE_BAD) continue;
 		if (after_reinit) { after_reinit = 0; }
-		if (a == A_FLUSH || a == A_BARRIER || a == A_FINISH) { size_t len = upto - start; while (len) { size_t c = len > (size_t)R->bsz ? (size_t)R->bsz : len; sz[n++] = c; len -= c; } start = upto; }
+		if (a == A_FLUSH || a == A_BARRIER || a == A_FINISH) { size_t len = upto - start; while (len) { size_t c = len > bs ? bs : len; sz[n++] = c; len -= c; } start = upto; }
 		prev = upto; }
 	(void)prev; return n;
 }
 
 static void run_script(obs *o, int threads, int probe) {
-	memset(o, 0, sizeof *o); atomic_store(&a_live, 0); ocap = 0; calls = 0; maxpo = 0;
+	memset(o, 0, sizeof *o); atomic_store(&a_live, 0); ocap = 0; calls = 0; maxpo = 0; bsz_now = 0;
 	lzma_stream s = LZMA_STREAM_INIT;
 	if (!enc_init(&s, threads)) { o->r = 98; BAD(o, "init failed"); return; }
 	s.next_out = comp; s.avail_out = 0; lzma_ret r = LZMA_OK;
@@ -125,10 +129,10 @@ static void run_script(obs *o, int threads, int probe) {
 		case A_FINISH: r = step(&s, upto, LZMA_FINISH, o, probe); break;
 		case A_UPDATE_OK: { lzma_ret u = lzma_filters_update(&s, flt2); if (u != LZMA_OK) BAD(o, "filters_update between Blocks refused (%d)", u); break; }
 		case A_UPDATE_BAD: { lzma_ret u = lzma_filters_update(&s, flt2); if (u == LZMA_OK) BAD(o, "filters_update inside a Block accepted"); u = lzma_filters_update(&s, fltbad); if (u == LZMA_OK) BAD(o, "invalid chain accepted by filters_update"); break; }
-		case A_REINIT_SAME: case A_REINIT_DIFF: {
-			int nt = p[0] == A_REINIT_SAME ? threads : (threads == 1 ? 2 : threads - 1);
+		case A_REINIT_SAME: case A_REINIT_DIFF: case A_REINIT_BIGGER_BLOCKS: {
+			int nt = p[0] != A_REINIT_DIFF ? threads : (threads == 1 ? 2 : threads - 1); if (p[0] == A_REINIT_BIGGER_BLOCKS) bsz_now = (size_t)R->bsz * 3;
 			if (!enc_init(&s, nt)) { r = 98; BAD(o, "re-init failed"); break; }
-			ocap = 0; s.next_out = comp; s.avail_out = 0; s.next_in = plain; s.avail_in = 0; maxpo = 0; break; }
+			ocap = 0; s.next_out = comp; s.avail_out = 0; s.next_in = plain; s.avail_in = 0; maxpo = 0; r = LZMA_OK; break; }
 		}
 		if (r == 77 || o->bad || (r != LZMA_OK && p[0] != A_FINISH)) break;
 	}
@@ -158,17 +162,25 @@ static void validate(obs *o, const char *what) {
 		if (r != LZMA_STREAM_END || d.total_out != plen || memcmp(dec, plain, plen)) BAD(o, "%s: liblzma decoder result %d", what, r); lzma_end(&d); } }
 }
 static void body(void) { run_script(&last, R->threads, 1); }
-static void check_one(void) {
-	n_exec++;
+static int quiet_check;
+static int check_one(void) {
+	if (!quiet_check) n_exec++;
 	validate(&last, "mt");
 	if (!last.bad && last.r != 77 && (last.tout != base_len || memcmp(comp, base_out, base_len))) BAD(&last, "bytes differ from the threads=1 / default-schedule output (%zu vs %zu bytes)", last.tout, base_len);
 	if (!last.bad && last.leaked) BAD(&last, "allocator balance: %ld blocks live after lzma_end", last.leaked);
 	uint64_t k = h_fnv(&last.r, sizeof last.r, 0); k = h_fnv(&last.h, 8, k); h_set_add(&obsset, k);
+	if (last.bad && quiet_check) return 1;
 	if (last.bad) { char sch[1200]; vs_schedule_string(sch, sizeof sch); char cls[40]; snprintf(cls, sizeof cls, "%.24s", last.why); for (char *c = cls; *c; c++) if (*c == ' ' || *c == ':') *c = '_';
 		char key[140]; snprintf(key, sizeof key, "mtenc:%s:%s", R->script, cls);
 		h_fail(key, "%s row=%s early=%d schedule=[%s] replay={\"harness\":\"c08_mtenc\",\"row\":\"%s\",\"early\":%d,\"schedule\":\"%s\"}", last.why, rowname, cur_early, sch, rowname, cur_early, sch); }
+	return last.bad;
 }
-static void body_checked(void) { H_CASE("c08_mtenc row=%s early=%d", rowname, cur_early); body(); check_one(); }
+// Replay before report: a failing execution is re-executed under exactly the same schedule; only if the observation repeats is it reported.
+static void body_checked(void) { H_CASE("c08_mtenc row=%s early=%d", rowname, cur_early); body();
+	quiet_check = 1; int bad = check_one(); quiet_check = 0;
+	if (bad) { obs a = last; int n = vs_npts; memcpy(vs_prefix, vs_choice, n * sizeof(int)); memcpy(vs_prefix_nen, vs_nen, n * sizeof(int)); vs_prefix_len = n; vs_begin(); body(); vs_end(); obs b = last;
+		if (a.r != b.r || a.tout != b.tout || a.h != b.h || a.bad != b.bad) { char sch[1200]; vs_schedule_string(sch, sizeof sch); printf("NONDET row=%s schedule=[%s]: the same schedule gave (ret=%d,out=%zu) then (ret=%d,out=%zu)\n", rowname, sch, a.r, a.tout, b.r, b.tout); return; } }
+	check_one(); }
 static void sched_extra(char *b, size_t n) { size_t o = snprintf(b, n, "schedule=["); vs_schedule_string(b + o, n - o); o = strlen(b); o += snprintf(b + o, n - o, "] trace="); vs_trace_string(b + o, n - o); }
 static void on_fatal(const char *kind, const char *detail) {
 	char sch[1200], tr[1500]; vs_schedule_string(sch, sizeof sch); vs_trace_string(tr, sizeof tr);
@@ -202,10 +214,13 @@ int main(int argc, char **argv) {
 	vs_bounds b = { R->bp + ((thorough && R->threads <= 2 && !R->early) ? 1 : 0), R->bt + (thorough && R->bt ? 1 : 0), R->bs };
 	if (argc > 8) { b.preemptions = atoi(argv[6]); b.timeouts = atoi(argv[7]); b.spurious = atoi(argv[8]); }
 	vs_allow_spurious = b.spurious > 0;
+	if (getenv("VS_MAX_EXEC")) { vs_max_exec = atol(getenv("VS_MAX_EXEC")); vs_dump_path = getenv("VS_DUMP"); vs_resume_path = getenv("VS_RESUME"); }
+	int k_from = getenv("VS_K") ? atoi(getenv("VS_K")) : -1;
 	vs_stats tot = { 0 }; int kmax = 0;
 	if (R->early) { int kcap = thorough ? 14 : 7; kmax = base.calls + 4 > kcap ? kcap : base.calls + 4; }
-	for (int k = (kmax ? 1 : 0); k <= kmax; k++) { cur_early = R->early ? k : 0;
+	for (int k = (kmax ? 1 : 0); k <= kmax; k++) { if (k_from >= 0 && k < k_from) continue; cur_early = R->early ? k : 0;
 		vs_stats st; vs_explore(body_checked, &b, shard, nsh, &st, h_expired);
+		if (vs_dumped) { printf("CONTINUE k=%d\n", k); tot.executions += st.executions; tot.transitions += st.transitions; tot.points += st.points; if (st.max_points > tot.max_points) tot.max_points = st.max_points; break; }
 		tot.executions += st.executions; tot.transitions += st.transitions; tot.points += st.points; if (st.max_points > tot.max_points) tot.max_points = st.max_points; tot.switches += st.switches; tot.with_timeouts += st.with_timeouts; tot.incomplete |= st.incomplete; }
 	printf("STAT evals=%ld states=%ld transitions=%ld distinct=%ld sched_points=%ld switches=%ld with_timeouts=%ld rows=1\n", tot.executions, tot.executions, tot.transitions + tot.executions, (long)obsset.n, tot.points, tot.switches, tot.with_timeouts);
 	printf("MAX max_points=%ld bound_preempt=%d bound_timeout=%d bound_spurious=%d\n", tot.max_points, b.preemptions, b.timeouts, b.spurious);
